@@ -11,7 +11,10 @@ use std::time::Instant;
 
 use crate::util::hash64;
 
-pub const VERIF_DIR: &str = "/verif";
+/// root of the verification tree (bin/check exports VERIF_ROOT so that a snapshot run writes into the snapshot)
+pub fn verif_dir() -> String {
+    std::env::var("VERIF_ROOT").unwrap_or_else(|_| "/verif".to_string())
+}
 
 #[derive(Clone, Copy, PartialEq, Eq, Debug)]
 pub enum Tier {
@@ -54,7 +57,7 @@ pub struct KnownFindings {
 
 impl KnownFindings {
     pub fn load() -> Self {
-        let path = format!("{}/known_findings.json", VERIF_DIR);
+        let path = format!("{}/known_findings.json", verif_dir());
         let Ok(text) = std::fs::read_to_string(&path) else {
             return KnownFindings::default();
         };
@@ -306,15 +309,15 @@ impl Report {
                             let secs = t0.elapsed().as_secs();
                             if secs >= 20 && !reported {
                                 reported = true;
-                                let path = format!("{}/logs/slow-{}-{}.json", VERIF_DIR, id, phase_name);
-                                let _ = std::fs::create_dir_all(format!("{}/logs", VERIF_DIR));
+                                let path = format!("{}/logs/slow-{}-{}.json", verif_dir(), id, phase_name);
+                                let _ = std::fs::create_dir_all(format!("{}/logs", verif_dir()));
                                 let _ = std::fs::write(&path, serde_json::to_string(&json!({"phase": phase_name, "tape": tape})).unwrap());
                                 eprintln!("SLOW-CASE property={} phase={} running {} s, tape in {}", id, phase_name, secs, path);
                             }
                             if secs >= slow_limit() {
                                 println!(
                                     "INCONCLUSIVE: property={} phase={} one case ran for more than {} s (tape: {}/logs/slow-{}-{}.json)",
-                                    id, phase_name, secs, VERIF_DIR, id, phase_name
+                                    id, phase_name, secs, verif_dir(), id, phase_name
                                 );
                                 std::process::exit(2);
                             }
@@ -351,7 +354,7 @@ impl Report {
                             let tape = tree.current();
                             if trace {
                                 let _ = std::fs::write(
-                                    format!("{}/logs/trace-{}-{}.json", VERIF_DIR, id, chunk),
+                                    format!("{}/logs/trace-{}-{}.json", verif_dir(), id, chunk),
                                     serde_json::to_string(&tape).unwrap(),
                                 );
                             }
@@ -568,7 +571,7 @@ impl Report {
     }
 
     fn write_replay(&self, found: &Found, n: usize) -> String {
-        let dir = format!("{}/replays/{}", VERIF_DIR, self.id);
+        let dir = format!("{}/replays/{}", verif_dir(), self.id);
         let _ = std::fs::create_dir_all(&dir);
         let h = hash64(&(found.phase.as_str(), &found.tape, found.failure.clause.as_str()));
         let path = format!("{}/{}-{:016x}-{}.json", dir, self.tier.name(), h, n);
@@ -639,7 +642,7 @@ impl Report {
             "wall_s": wall,
             "violations": violations,
         });
-        let dir = format!("{}/evidence", VERIF_DIR);
+        let dir = format!("{}/evidence", verif_dir());
         let _ = std::fs::create_dir_all(&dir);
         if !self.strict {
             std::fs::write(format!("{}/{}.json", dir, self.id), serde_json::to_string_pretty(&ev).unwrap())
@@ -696,7 +699,7 @@ pub enum ChildOutcome {
 /// The child's worker thread gets `stack_kb` of stack.
 pub fn run_isolated(kind: &str, inputs: &[Vec<u8>], stack_kb: usize, timeout_s: u64) -> Vec<ChildOutcome> {
     use std::io::Write;
-    let dir = format!("{}/.work", VERIF_DIR);
+    let dir = format!("{}/.work", verif_dir());
     let _ = std::fs::create_dir_all(&dir);
     let mut results = vec![ChildOutcome::NotRun; inputs.len()];
     let mut start = 0usize;
